@@ -20,8 +20,9 @@
    * `rx.descendants(g, n)` = every node reachable from `n` by ≥ 1 edge, without `n` itself.  It returns a
      Python `set`; the iteration order of the deletion loop is unspecified there and is the discovery order
      here — it only matters if a `del` inside the loop raises, which needs a name missing from a registry.
-   * `check_cycle=True` is not modelled: every edge an edit adds goes from a node to a freshly created node or
-     from a predecessor of a removed node to that node's successors, none of which can close a cycle.
+   * `check_cycle=True`: `add_edge` raises `DAGWouldCycle` when the child already reaches the parent (modelled
+     in `relink`); the edges `add_comp` adds end in the node it has just created, which has no outgoing edge,
+     so the check cannot fire there and is not spelled out.
 -/
 import SysLoss.Model.Solver
 
@@ -161,11 +162,14 @@ def reachAux : Nat → List (Nat × Nat) → List Nat → List Nat
     let new := newSuccs E S
     if new = [] then S else reachAux k E (S ++ new)
 
+/-- everything reachable from the set `S` (including `S`); `E.length + 1` rounds always suffice -/
+def reachSet (E : List (Nat × Nat)) (S : List Nat) : List Nat := reachAux (E.length + 1) E S
+
 namespace Sys
 
 /-- `rx.descendants(self._g, n)` -/
 def descendants (s : Sys π ν) (n : Nat) : List Nat :=
-  (reachAux (s.edges.length + 1) s.edges [n]).filter (fun x => decide (x ≠ n))
+  (reachSet s.edges [n]).filter (fun x => decide (x ≠ n))
 
 /-! ### `_get_index`, `_chk_*`, `_get_parents`, `_get_childs`, `_get_sources` -/
 
@@ -391,10 +395,15 @@ def delDescendants (s : Sys π ν) : List Nat → Res π ν
     | some pc =>
       andThen (s.delRegs (nameOfC pc)) fun s1 => delDescendants (s1.removeNode c) cs
 
-/-- `for c in childs[eidx]: self._g.add_edge(parents[eidx][0], c, None)` -/
-def relink (s : Sys π ν) (p0 : Nat) : List Nat → Sys π ν
-  | [] => s
-  | c :: cs => relink (s.addEdge p0 c) p0 cs
+/-- `for c in childs[eidx]: self._g.add_edge(parents[eidx][0], c, None)`.
+    `add_edge` raises `IndexError` for an endpoint that is not in the graph and (PyDAG, `check_cycle=True`)
+    `DAGWouldCycle` when the child already reaches the parent. -/
+def relink (s : Sys π ν) (p0 : Nat) : List Nat → Res π ν
+  | [] => (s, .ok)
+  | c :: cs =>
+    if p0 ∉ s.ids ∨ c ∉ s.ids then fail s "IndexError"
+    else if p0 = c ∨ p0 ∈ s.descendants c then fail s "DAGWouldCycle"
+    else relink (s.addEdge p0 c) p0 cs
 
 def delComp (s : Sys π ν) (x : String) (delChilds : Bool) : Res π ν :=
   match s.getIndex x with
@@ -417,7 +426,7 @@ def delComp (s : Sys π ν) (x : String) (delChilds : Bool) : Res π ν :=
             if delChilds then (s2, .ok) else
             match childs, pe with
             | [], _ => (s2, .ok)
-            | _ :: _, some p0 :: _ => (s2.relink p0 childs, .ok)
+            | _ :: _, some p0 :: _ => s2.relink p0 childs
             | _ :: _, none :: _ => fail s2 "OverflowError"      -- add_edge(-1, c)
             | _ :: _, [] => (s2, .ok)                            -- unreachable: `pe = []` was rejected above
 
